@@ -6,6 +6,7 @@ import (
 	"io"
 	"os"
 	"path/filepath"
+	"strings"
 	"testing"
 
 	"filippo.io/age"
@@ -46,6 +47,10 @@ type c02Case struct {
 	Edit      c02Edit     `json:"edit"`
 	Plan      []int       `json:"plan"`
 	Delivery  hx.Delivery `json:"delivery"`
+	// CLI arm only: printable plaintext, decrypted with standard output on a terminal
+	TTY bool `json:"tty,omitempty"`
+	// CLI arm only: the edited file is a passphrase-protected identity file given with -i
+	AsIdentity bool `json:"asIdentity,omitempty"`
 }
 
 var c02FileKey = []byte("0123456789abcdef")
@@ -388,10 +393,114 @@ func boolInt(b bool) int {
 
 // the same through the age command: a tampered payload gives a non-zero exit
 // status and only a prefix of the plaintext at the output
+// c02TextBase: like c02Base with a printable plaintext.
+func c02TextBase(plainLen int, seed uint64) (*refage.File, []byte) {
+	f, plain := c02Base(plainLen, seed)
+	for i := range plain {
+		plain[i] = "abcdefghijklmnopqrstuvwxyz012345"[plain[i]&31]
+		if i%64 == 63 {
+			plain[i] = '\n'
+		}
+	}
+	return refage.Build(f.FileKey, f.Nonce, f.Header.Stanzas, refage.CanonicalChunks(plain)), plain
+}
+
+// c02CheckTTY: age -d with the plaintext going to a terminal.
+func c02CheckTTY(c c02Case, st *stats.Run) error {
+	bin := os.Getenv("VERIF_BIN")
+	p := hx.ThePool()
+	f, plain := c02TextBase(c.PlainLen, c.PlainSeed)
+	region, _, accept := c02Apply(f, plain, c.Edit, c.PlainSeed)
+	file := append(f.Header.Marshal(), region...)
+	dir, err := os.MkdirTemp(".", "c02tty-")
+	if err != nil {
+		return pbt.Failf("C02/harness", "%v", err)
+	}
+	dir, _ = filepath.Abs(dir)
+	defer os.RemoveAll(dir)
+	os.WriteFile(filepath.Join(dir, "in.age"), file, 0o644)
+	os.WriteFile(filepath.Join(dir, "key.txt"), []byte(refage.Bech32Encode("AGE-SECRET-KEY-", p.X25519[0])+"\n"), 0o600)
+	st.Case(!accept, stats.HashJSON(c), "cli", "cli-tty", "cli-tty:edit="+c.Edit.Kind, chunkLabel(c.PlainLen))
+	st.Sample("cli-tty/"+c.Edit.Kind, c)
+	res, tty := c15RunPtyOpt(dir, nil, true, filepath.Join(bin, "age"), "-d", "-i", "key.txt", "in.age")
+	if res.killed || res.code == -3 {
+		st.Label("inconclusive-pty")
+		return nil
+	}
+	shown := strings.ReplaceAll(tty, "\r\n", "\n")
+	if accept {
+		if res.code != 0 || shown != string(plain) {
+			return pbt.Failf("C02/valid-rejected", "age -d of a valid file to the terminal: exit %d, %d bytes shown (%s)", res.code, len(shown), trunc([]byte(res.stderr)))
+		}
+		return nil
+	}
+	if res.code == 0 {
+		return pbt.Failf("C02/tampered-accepted", "age -d to a terminal exits 0 on a file whose payload was edited (%s %+v); terminal shows %d bytes", c.Edit.Kind, c.Edit, len(shown))
+	}
+	if !strings.HasPrefix(string(plain), shown) {
+		return pbt.Failf("C02/released-not-prefix", "age -d showed %d bytes on the terminal that are not a prefix of the plaintext before failing", len(shown))
+	}
+	return nil
+}
+
+func c02IDPlain(atLeast int) []byte {
+	idPlain := []byte("# identity file\n" + refage.Bech32Encode("AGE-SECRET-KEY-", hx.ThePool().X25519[0]) + "\n")
+	for len(idPlain) < atLeast {
+		idPlain = append(idPlain, "# padding comment line ......................................\n"...)
+	}
+	return idPlain
+}
+
+// c02CheckIdentityFile: the edited file is a passphrase-protected identity
+// file; using it (age -d -i FILE) is a decryption like any other.
+func c02CheckIdentityFile(c c02Case, st *stats.Run) error {
+	bin := os.Getenv("VERIF_BIN")
+	p := hx.ThePool()
+	idPlain := c02IDPlain(c.PlainLen)
+	const pass = "identity file passphrase"
+	fk := hx.PRG(c.PlainSeed+40, 16)
+	f := refage.Build(fk, hx.PRG(c.PlainSeed+41, 16), []refage.Stanza{refage.WrapScrypt(fk, hx.PRG(c.PlainSeed+42, 16), 10, []byte(pass))}, refage.CanonicalChunks(idPlain))
+	region, _, accept := c02Apply(f, idPlain, c.Edit, c.PlainSeed)
+	idFile := append(f.Header.Marshal(), region...)
+	msg := hx.PRG(c.PlainSeed+43, 100)
+	dir, err := os.MkdirTemp(".", "c02id-")
+	if err != nil {
+		return pbt.Failf("C02/harness", "%v", err)
+	}
+	dir, _ = filepath.Abs(dir)
+	defer os.RemoveAll(dir)
+	os.WriteFile(filepath.Join(dir, "id.age"), idFile, 0o600)
+	os.WriteFile(filepath.Join(dir, "in.age"), refFile(p, []hx.RecSpec{{Kind: "x25519", Idx: 0}}, hx.PRG(2, 16), 3, msg).Bytes(), 0o644)
+	st.Case(!accept, stats.HashJSON(c), "cli", "cli-identity-file", "cli-identity-file:edit="+c.Edit.Kind, chunkLabel(len(idPlain)))
+	st.Sample("cli-identity-file/"+c.Edit.Kind, c)
+	res, tty := c15RunPty(dir, []string{pass}, filepath.Join(bin, "age"), "-d", "-i", "id.age", "-o", "out.dat", "in.age")
+	if res.killed || res.code == -3 {
+		st.Label("inconclusive-pty")
+		return nil
+	}
+	got, rerr := os.ReadFile(filepath.Join(dir, "out.dat"))
+	if accept {
+		if res.code != 0 || !bytes.Equal(got, msg) {
+			return pbt.Failf("C02/valid-rejected", "age -d -i <valid passphrase-protected identity file>: exit %d (stderr %q, tty %q)", res.code, res.stderr, tty)
+		}
+		return nil
+	}
+	if res.code == 0 || rerr == nil {
+		return pbt.Failf("C02/tampered-accepted", "age -d -i <passphrase-protected identity file whose payload was edited: %s %+v>: exit %d, output file written: %v", c.Edit.Kind, c.Edit, res.code, rerr == nil)
+	}
+	return nil
+}
+
 func c02CheckCLI(c c02Case, st *stats.Run) error {
 	bin := os.Getenv("VERIF_BIN")
 	if bin == "" {
 		return nil
+	}
+	if c.TTY {
+		return c02CheckTTY(c, st)
+	}
+	if c.AsIdentity {
+		return c02CheckIdentityFile(c, st)
 	}
 	p := hx.ThePool()
 	f, plain := c02Base(c.PlainLen, c.PlainSeed)
@@ -559,6 +668,39 @@ func TestC02(t *testing.T) {
 			}
 		}
 		s.St.Exhaust("through the age command: 4 plaintext lengths x nonce / first byte / last tag flips, truncations, extensions, chunk swap", int64(n))
+		// plaintext shown on a terminal
+		m := 0
+		for _, l := range []int{0, 40, 511, 512, 700, chunk + 100} {
+			total := 16 + l + 16*chunksOf(l)
+			edits := []c02Edit{{Kind: "none"}, {Kind: "trunc", Len: 16}, {Kind: "trunc", Len: total - 1}, {Kind: "trunc", Len: 3}, {Kind: "flip", Off: total - 1, Bit: 0}, {Kind: "extend", Len: 1}}
+			if l > chunk {
+				edits = append(edits, c02Edit{Kind: "trunc", Len: 16 + refage.EncChunkSize}, c02Edit{Kind: "trunc", Len: 16 + refage.EncChunkSize + 30})
+			}
+			for _, e := range edits {
+				if s.Mine(n + m) {
+					yield(c02Case{PlainLen: l, PlainSeed: 9, Edit: e, TTY: true})
+				}
+				m++
+			}
+		}
+		s.St.Exhaust("age -d with standard output on a terminal: 6 printable plaintext lengths around the 512-byte mark x truncations, flip, extension", int64(m))
+		// a passphrase-protected identity file as the decrypted object
+		k := 0
+		for _, l := range []int{0, chunk + 5000, 2 * chunk} {
+			pl := len(c02IDPlain(l))
+			total := 16 + pl + 16*chunksOf(pl)
+			edits := []c02Edit{{Kind: "none"}, {Kind: "trunc", Len: total - 1}, {Kind: "flip", Off: total - 1, Bit: 3}, {Kind: "extend", Len: 1}}
+			if pl > chunk {
+				edits = append(edits, c02Edit{Kind: "trunc", Len: 16 + refage.EncChunkSize}, c02Edit{Kind: "trunc", Len: 16 + refage.EncChunkSize + 100}, c02Edit{Kind: "flip", Off: 16 + refage.EncChunkSize + 50, Bit: 1})
+			}
+			for _, e := range edits {
+				if s.Mine(n + m + k) {
+					yield(c02Case{PlainLen: l, PlainSeed: 10, Edit: e, AsIdentity: true})
+				}
+				k++
+			}
+		}
+		s.St.Exhaust("age -d -i <passphrase-protected identity file>: 3 identity-file sizes (1..3 chunks) x truncations at and after a chunk boundary, flips, extension", int64(k))
 	}, func(c c02Case) error { return c02CheckCLI(c, s.St) })
 	pbt.Rapid(s, "edits", s.N(4000, 25000), c02Gen, check)
 }
